@@ -1,4 +1,5 @@
 import Spake2Model.Model.Spake2
+import Spake2Model.Model.Published
 /-!
 Line protocol: one operation per input line, one canonical result per output line.
 The Python harness (`harness/impl.py`) executes the same lines against the real library.
@@ -101,6 +102,13 @@ def mkElem (g : DGroup) (e : g.toGroup.Elem) : DElem :=
   | .int P, v => .int P v
   | .ed c, v => .ed c v
 
+def pubGroup : String → Option DGroup
+  | "ed" => some (.ed Published.curve)
+  | "1024" => some (.int Published.i1024)
+  | "2048" => some (.int Published.i2048)
+  | "3072" => some (.int Published.i3072)
+  | _ => none
+
 def step (st : St) (line : String) : St × String :=
   let ws := (line.trimAscii.toString.splitOn " ").filter (· ≠ "")
   let bad := (st, "bad-op")
@@ -119,6 +127,25 @@ def step (st : St) (line : String) : St × String :=
     match nat? gid with
     | some gid => ({ st with groups := put gid (.ed ed25519) st.groups }, "ok")
     | _ => bad
+  | ["group", gid, "pub", which] =>
+    match nat? gid, pubGroup which with
+    | some gid, some g => ({ st with groups := put gid g st.groups }, "ok")
+    | _, _ => bad
+  | ["params", pid, "shipped", which] =>
+    match nat? pid, pubGroup which with
+    | some pid, some g =>
+      match mkParams g.toGroup Published.seedM Published.seedN Published.seedS with
+      | .ok p => ({ st with params := put pid ⟨g, p⟩ st.params }, "ok")
+      | .error e => (st, errStr e)
+    | _, _ => bad
+  | ["newdef", sid, side, pw, idA, idB, ent] =>
+    match nat? sid, parseSide side, parseHex pw, parseHex idA, parseHex idB, parseHex ent with
+    | some sid, some side, some pw, some idA, some idB, some ent =>
+      let g := DGroup.ed Published.curve
+      match mkParams g.toGroup Published.seedM Published.seedN Published.seedS with
+      | .ok p => ({ st with sessions := put sid ⟨g, Inst.new side pw idA idB p ⟨ent⟩⟩ st.sessions }, "ok")
+      | .error e => (st, errStr e)
+    | _, _, _, _, _, _ => bad
   | ["group", gid, "edtoy", q, l, d, i, bx, byy] =>
     match nat? gid, int? q, int? l, int? d, int? i, int? bx, int? byy with
     | some gid, some q, some l, some d, some i, some bx, some byy =>
@@ -171,6 +198,10 @@ def step (st : St) (line : String) : St × String :=
       let sc := match i.xyScalar with | some x => toString x | none => "none"
       let ob := match i.outbound with | some b => hexStr b | none => "none"
       (st, s!"st {i.started} {i.finished} {sc} {ob} {i.pwScalar}")
+    | none => bad
+  | ["entleft", sid] =>
+    match nat? sid >>= (find · st.sessions) with
+    | some s => (st, s!"ok {s.inst.entropy.stream.length}")
     | none => bad
   | ["hashparams", sid] =>
     match nat? sid >>= (find · st.sessions) with
